@@ -83,7 +83,7 @@ def run(ctx):
         open(gpath, "w").write(rp.get("grammar", ""))
         args += ["--replay", gpath]
     else:
-        args += ["--n", ctx.vol(8000, 120000)]
+        args += ["--n", ctx.vol(8000, 100000)]
     rc, out, err = ctx.run_harness(exe, args, timeout=7200)
     if rc != 0:
         ctx.fatal("harness lrverdict failed: " + err[-500:])
@@ -160,7 +160,7 @@ def run(ctx):
     # ---- property-level: every verdict disagreement is a failing input (grammar + algorithm)
     lane_known = {}
     verdict_dis = [i for k in ("verdict:lane", "verdict:lr1", "verdict:lalr") for i in dis.get(k, [])]
-    for i in verdict_dis[:40]:
+    for i in verdict_dis[:250]:
         gi, start, algo, _ = metas[i]
         text = grammars[int(gi)]
         if algo == "lalr":
@@ -242,6 +242,7 @@ def run(ctx):
         "lalrpop_outputs_validated": validated_out,
         "lane_table_state_counts_vs_canonical": {k.split(":", 1)[1]: v for k, v in hist.items() if k.startswith("lane-states:")},
         "verdict_disagreements": {k: len(v) for k, v in dis.items() if k.startswith("verdict")},
+        "verdict_disagreements_examined": min(len(verdict_dis), 250),
         "lane_table_rejections_of_LR1_grammars_by_cause": {k: len(v) for k, v in lane_known.items()},
         "generator_distribution": {k: v for k, v in hist.items()
                                    if k.startswith(("origin:", "decoration:", "export:", "grammar-verdict:"))},
